@@ -64,12 +64,13 @@ type E struct {
 }
 type M struct {
 	Implements []string `json:"implements"`
-	Name   string   `json:"name"`
-	Fields []F      `json:"fields"`
-	Oneofs []string `json:"oneofs"` // declaration order
-	Nested []M      `json:"nested"`
-	Enums  []E      `json:"enums"`
+	Name       string   `json:"name"`
+	Fields     []F      `json:"fields"`
+	Oneofs     []string `json:"oneofs"` // declaration order
+	Nested     []M      `json:"nested"`
+	Enums      []E      `json:"enums"`
 }
+
 // X is a custom option (extension of a google.protobuf.*Options message) declared by a file.
 type X struct {
 	Name     string `json:"name"`
@@ -78,7 +79,22 @@ type X struct {
 	Extendee string `json:"extendee"` // e.g. .google.protobuf.FieldOptions
 }
 
+// Svc is a service; RPC input and output are fully-qualified (leading dot) message names.
+type RPC struct {
+	Name string `json:"name"`
+	In   string `json:"in"`
+	Out  string `json:"out"`
+	CS   bool   `json:"cs"` // client streaming
+	SS   bool   `json:"ss"` // server streaming
+}
+type Svc struct {
+	Name string `json:"name"`
+	RPCs []RPC  `json:"rpcs"`
+}
+
 type File struct {
+	Public []string `json:"public"` // the Deps imported with "import public"
+	Svcs   []Svc    `json:"svcs"`
 	Exts   []X      `json:"exts"`
 	Name   string   `json:"name"`   // e.g. verif/s0/s0.proto
 	Pkg    string   `json:"pkg"`    // proto package, e.g. verif.s0
@@ -111,6 +127,12 @@ func (f *File) Canon() *File {
 	}
 	if f.Exts == nil {
 		f.Exts = []X{}
+	}
+	if f.Public == nil {
+		f.Public = []string{}
+	}
+	if f.Svcs == nil {
+		f.Svcs = []Svc{}
 	}
 	var fix func(ms []M)
 	fix = func(ms []M) {
@@ -326,6 +348,27 @@ func (f *File) ToProto() *descriptorpb.FileDescriptorProto {
 	for i := range f.Enums {
 		p.EnumType = append(p.EnumType, f.Enums[i].toProto())
 	}
+	for i, d := range f.Deps {
+		for _, pd := range f.Public {
+			if pd == d {
+				p.PublicDependency = append(p.PublicDependency, int32(i))
+			}
+		}
+	}
+	for _, sv := range f.Svcs {
+		sd := &descriptorpb.ServiceDescriptorProto{Name: proto.String(sv.Name)}
+		for _, r := range sv.RPCs {
+			md := &descriptorpb.MethodDescriptorProto{Name: proto.String(r.Name), InputType: proto.String(r.In), OutputType: proto.String(r.Out)}
+			if r.CS {
+				md.ClientStreaming = proto.Bool(true)
+			}
+			if r.SS {
+				md.ServerStreaming = proto.Bool(true)
+			}
+			sd.Method = append(sd.Method, md)
+		}
+		p.Service = append(p.Service, sd)
+	}
 	for _, x := range f.Exts {
 		p.Extension = append(p.Extension, &descriptorpb.FieldDescriptorProto{
 			Name: proto.String(x.Name), Number: proto.Int32(x.Num), JsonName: proto.String(jsonName(x.Name)),
@@ -506,7 +549,7 @@ func Matrix(includeSintOneof bool) []*File {
 	}
 	mxmap := &File{Name: "verif/mxmap/mxmap.proto", Pkg: "verif.mxmap", GoPkg: "mxmap", Group: "mxmap", Tags: []string{"matrix"},
 		Enums: []E{{Name: "En2", Values: []EV{{"E2_Z", 0}, {"E2_ONE", 1}, {"E2_NEG", -1}}}},
-		Msgs: []M{{Name: "V", Fields: []F{one("a", 1, "int32"), mp("inner", 2, "int32", "string"), one("v", 3, "message", ".verif.mxmap.V")}}, mm},
+		Msgs:  []M{{Name: "V", Fields: []F{one("a", 1, "int32"), mp("inner", 2, "int32", "string"), one("v", 3, "message", ".verif.mxmap.V")}}, mm},
 	}
 
 	// tag widths: for each wire class one field at numbers needing 1..5 tag bytes
@@ -683,7 +726,13 @@ func Cross() []*File {
 			{Name: "Times", Fields: []F{rep("ds", 1, "message", ".google.protobuf.Duration"), rep("tss", 2, "message", ".google.protobuf.Timestamp"),
 				mp("md", 3, "string", "message", ".google.protobuf.Duration"), one("d", 4, "message", ".google.protobuf.Duration"), one("t", 5, "message", ".google.protobuf.Timestamp")}},
 		},
-		Enums: []E{{Name: "Side", Values: []EV{{"SIDE_NONE", 0}, {"SIDE_UP", 5}, {"SIDE_DOWN", 9}, {"SIDE_FAR", -3}}}}}
+		Enums:  []E{{Name: "Side", Values: []EV{{"SIDE_NONE", 0}, {"SIDE_UP", 5}, {"SIDE_DOWN", 9}, {"SIDE_FAR", -3}}}},
+		Public: []string{"verif/xa/xa2.proto"},
+		Svcs: []Svc{{Name: "Keeper", RPCs: []RPC{
+			{Name: "Hold", In: ".verif.xa.Holder", Out: ".verif.xa.Leaf"},
+			{Name: "Time", In: ".verif.xa.Times", Out: ".verif.xb.Leaf"},
+			{Name: "Watch", In: ".verif.xa.Second", Out: ".verif.xa.Box", SS: true},
+		}}, {Name: "Other", RPCs: []RPC{{Name: "Swap", In: ".verif.xb.Tree", Out: ".verif.xa.Holder", CS: true, SS: true}}}}}
 	xa2 := &File{Name: "verif/xa/xa2.proto", Pkg: "verif.xa", GoPkg: "xa", Group: "x", Tags: []string{"cross"},
 		Deps: []string{"verif/xb/xb.proto", "google/protobuf/any.proto"},
 		Msgs: []M{
@@ -719,13 +768,13 @@ func PluginUniverse() map[string]*File {
 	cross := Cross()
 	a, b := cross[0], cross[2] // xb, xa
 	c := &File{Name: "verif/xb/xb2.proto", Pkg: "verif.xb", GoPkg: "xb", Group: "x", Deps: []string{"verif/xb/xb.proto"},
-		Msgs: []M{{Name: "Branch", Fields: []F{one("leaf", 1, "message", ".verif.xb.Leaf"), rep("tags", 2, "string")}}}}
+		Msgs: []M{{Name: "Branch", Fields: []F{one("leaf", 1, "message", ".verif.xb.Leaf"), rep("tags", 2, "string"), rep("nums", 3, "sint32"), rep("ws", 4, "double")}}}}
 	d := &File{Name: "verif/p2/p2.proto", Pkg: "verif.p2", GoPkg: "p2", Group: "p2", Syntax: "proto2",
 		Msgs: []M{{Name: "Old", Fields: []F{one("a", 1, "int32"), one("b", 2, "string")}}}}
 	e := &File{Name: "verif/ex/ex.proto", Pkg: "verif.ex", GoPkg: "ex", Group: "ex",
 		Deps: []string{"google/protobuf/descriptor.proto"},
 		Msgs: []M{
-			{Name: "Lone", Oneofs: []string{"z"}, Fields: []F{one("a", 1, "sint64"), mp("m", 2, "string", "double"), oo("z", "zz", 3, "bool")}},
+			{Name: "Lone", Oneofs: []string{"z"}, Fields: []F{one("a", 1, "sint64"), mp("m", 2, "string", "double"), oo("z", "zz", 3, "bool"), rep("rs", 4, "fixed32"), rep("ru", 5, "uint64")}},
 			// same short (Go) name as verif.xb.Leaf, with field names that must be renamed
 			{Name: "Leaf", Fields: []F{one("type", 1, "string"), one("descriptor", 2, "int32"), rep("get", 3, "bytes")}},
 			{Name: "Tree", Fields: []F{one("range", 1, "message", ".verif.ex.Leaf")}},
